@@ -219,6 +219,24 @@ fn dirty_documents(c: &mut Ctx) {
         let mut ok = true;
         for _ in 0..saves { let mut sink = Vec::new(); if !matches!(guard(|| doc.save_to(&mut sink)), Ok(Ok(()))) { ok = false; break; } }
         if !ok { c.count("dirty.first_save_error"); continue; }
+        // every third document is RELOADED from its own file before it is edited: what the reader remembers about the file
+        // (the cross-reference stream's object, its number, max_id) must not leak into the next save
+        if i % 3 == 2 {
+            let mut buf0 = Vec::new();
+            if !matches!(guard(|| doc.save_to(&mut buf0)), Ok(Ok(()))) { continue; }
+            let Ok(Ok(back)) = guard(|| Document::load_mem(&buf0)) else { continue };
+            doc = back;
+            doc.reference_table.cross_reference_type = if first_stream { XrefType::CrossReferenceStream } else { XrefType::CrossReferenceTable };
+            c.count("dirty.reloaded");
+            // the stale cross-reference stream object: removed, and its number reused by an ordinary object; or everything renumbered
+            let xref_ids: Vec<_> = doc.objects.iter().filter(|(_, o)| is_xref_stream(o)).map(|(k, _)| *k).collect();
+            match r.below(4) {
+                0 => { for id in &xref_ids { doc.objects.remove(id); doc.objects.insert(*id, gen_obj(&mut r, 3)); c.count("dirty.xref_number_reused"); } }
+                1 => { for id in &xref_ids { doc.objects.remove(id); } let start = 1 + r.below(4) as u32; let _ = guard(|| doc.renumber_objects_with(start)); c.count("dirty.renumbered_after_load"); }
+                2 => { let start = 1 + r.below(4) as u32; let _ = guard(|| doc.renumber_objects_with(start)); c.count("dirty.renumbered_after_load_with_xref"); }
+                _ => {}
+            }
+        }
         for _ in 0..r.usize(5) {
             match r.below(5) {
                 0 => { let id = (doc.max_id + 1, 1 + r.below(3) as u16); doc.set_object(id, gen_obj(&mut r, 3)); c.count("dirty.top_object_with_generation"); }
